@@ -1442,8 +1442,8 @@ def oracle(ctx, volume=1):
                 "followed by a byte-level snapshot comparison of the whole pool; non-trivial = the operation returned a value "
                 "(did not raise in both worlds); distinct by (history, step, operation, operands)")
     ctx.partial += [
-        {"theorem": "gen_reuse_refines_fresh_partial / fast_reuse_refines_fresh_partial",
-         "missing": "an identity-mode dataset after a weight-installing one: false on the tree (C13-F1, `pass` keeps the earlier weights); negation witnesses *_fails"},
+        {"theorem": "gen_reuse_refines_fresh / fast_reuse_refines_fresh",
+         "missing": "hypothesis Handled: a weighting mode without a branch in _set_weights_by_mode keeps the earlier weights (unhandled_mode_keeps_weights, witness reuse_refines_fresh_unhandled_fails)"},
         {"theorem": "algo_reuse_refines_fresh_partial", "missing": "histories in which the requested projection changes: false on the tree (D10)"},
     ]
 
